@@ -18,6 +18,7 @@ ASSUME = [
     "correctness is C02/C03/C04's subject: a sealed fraction answers with the spec over the documents frac.Seal read from the index",
     "retention never deletes a fraction that still has bulks being indexed (suicide step disabled while indexWg > 0)",
     "no nested documents, no duplicate ID inside one bulk (retried bulks = same ID in different bulks are covered)",
+    "Model.f_ldocs keeps the whole document per ID-table entry: the ID is what the code stores, the rest is ghost state no step reads",
 ]
 RULE = ("fixed witness schedules (sequential, negation mid-bulk, stale block table, hand-over, refused append, range clamp, "
         "suicided proxy) + random schedules over 1-3 writers x 1-2 bulks x 1-3 docs, 1-3 readers (search of one list entry "
